@@ -119,7 +119,7 @@ Definition rstrip_if (d : option dcomment) (l : string) : string :=
   match d with Some _ => rstrip l | None => l end.
 
 Fixpoint zipdec (f : option dcomment -> string -> string) (dec : list (option dcomment))
-         (ls : list string) : list string :=
+         (ls : list string) {struct ls} : list string :=
   match ls with
   | [] => []
   | l :: r => match dec with
@@ -329,7 +329,7 @@ Lemma mask_skip_nones : forall k r dr cl ins,
 Proof.
   induction k as [|k IH]; intros r dr cl ins H; [reflexivity|].
   destruct dr as [|d dr]; [reflexivity|].
-  destruct r as [|l r]; [simpl in H; discriminate|].
+  destruct r as [|l r]; [destruct d; simpl in H; discriminate|].
   cbn [story_mask] in H. destruct d as [d|]; simpl in H; [discriminate|].
   simpl. eapply IH. exact H.
 Qed.
@@ -449,9 +449,8 @@ Proof.
         cbn [zipdec rstrip_if]. f_equal.
         assert (En : eme_skip (zipdec deco dr r) (drop 2 (strip (bare_of l))) =
                      eme_skip r (drop 2 (strip (bare_of l)))).
-        { unfold eme_skip. destruct (negb _); [reflexivity|].
-          apply eme_count_decorate. apply mask_skip_nones in H. unfold eme_skip in H.
-          destruct (negb _) in H; [discriminate|]. exact H. }
+        { pose proof (mask_skip_nones _ _ _ _ _ H) as Hn. unfold eme_skip in Hn |- *.
+          destruct (negb _); [reflexivity|]. apply eme_count_decorate. exact Hn. }
         rewrite En. apply IH. exact H. }
       apply within_some in H. destruct H as [_ [_ H]].
       cbn [zipdec rstrip_if]. f_equal. apply IH. exact H.
@@ -469,10 +468,745 @@ Proof.
         { rewrite within_none in H. cbn [zipdec rstrip_if]. f_equal.
           assert (En : eme_skip (zipdec deco dr r) (drop 2 (strip (bare_of l))) =
                        eme_skip r (drop 2 (strip (bare_of l)))).
-          { unfold eme_skip. destruct (negb _) eqn:En0; [reflexivity|].
-            apply eme_count_decorate. apply mask_skip_nones in H. unfold eme_skip in H.
-            rewrite En0 in H. exact H. }
+        { pose proof (mask_skip_nones _ _ _ _ _ H) as Hn. unfold eme_skip in Hn |- *.
+          destruct (negb _); [reflexivity|]. apply eme_count_decorate. exact Hn. }
           rewrite En. apply IH. exact H. }
         rewrite within_none in H. cbn [zipdec rstrip_if]. f_equal. apply IH. exact H.
       * rewrite within_none in H. cbn [zipdec rstrip_if]. f_equal. apply IH. exact H.
+Qed.
+
+(* ... and right-stripping changes nothing where the decorated lines are tidy *)
+Lemma rstrip_at_tidy : forall ls dec closer in_story skip,
+  within dec (story_mask ls closer in_story skip) = true -> tidy_at dec ls = true ->
+  rstrip_at dec (spcop ls closer in_story skip) = spcop ls closer in_story skip.
+Proof.
+  unfold rstrip_at.
+  induction ls as [|l r IH]; intros dec closer in_story skip H T; [reflexivity|].
+  destruct dec as [|d dr]; [apply zipdec_nil|].
+  destruct skip as [|k].
+  2:{ cbn [story_mask] in H. destruct d as [d|]; [simpl in H; discriminate|].
+      rewrite within_none in H. cbn [strip_comments_outside_python zipdec rstrip_if].
+      f_equal. apply IH; assumption. }
+  rewrite mask_0 in H. rewrite spcop_0. cbv zeta in *.
+  destruct d as [d|].
+  - cbn [tidy_at] in T. apply andb_prop in T. destruct T as [Tl Tr].
+    unfold tidy in Tl. apply String.eqb_eq in Tl.
+    destruct closer as [c0|].
+    + destruct (String.eqb (strip (bare_of l)) c0);
+        apply within_some in H; destruct H as [Hm [_ H]]; [|discriminate].
+      cbn [zipdec rstrip_if]. rewrite Tl. f_equal. apply IH; assumption.
+    + repeat match goal with |- context [if ?b then _ else _] => destruct b end;
+        apply within_some in H; destruct H as [Hm [_ H]]; try discriminate;
+        cbn [zipdec rstrip_if]; rewrite Tl; f_equal; apply IH; assumption.
+  - cbn [tidy_at] in T.
+    destruct closer as [c0|].
+    + destruct (String.eqb (strip (bare_of l)) c0); rewrite within_none in H;
+        cbn [zipdec rstrip_if]; f_equal; apply IH; assumption.
+    + repeat match goal with |- context [if ?b then _ else _] => destruct b end;
+        rewrite within_none in H; cbn [zipdec rstrip_if]; f_equal; apply IH; assumption.
+Qed.
+
+(* (a), pre-pass form: trailing comments on story lines are invisible to everything after the
+   pre-pass *)
+Lemma prepass_decorate : forall ls dec,
+  decorable dec ls = true ->
+  spcop (decorate dec ls) None false 0 = spcop ls None false 0.
+Proof.
+  intros ls dec H. unfold decorable in H. apply andb_prop in H. destruct H as [H T].
+  rewrite prepass_decorate_gen by exact H. apply rstrip_at_tidy; assumption.
+Qed.
+
+(* (a), whole compiler model: any oracles, any block extractors *)
+Lemma parse_decorate : forall pp is_call xs ls dec,
+  decorable dec ls = true ->
+  parse pp is_call xs (decorate dec ls) = parse pp is_call xs ls.
+Proof.
+  intros pp is_call xs ls dec H. unfold parse. rewrite (prepass_decorate ls dec H). reflexivity.
+Qed.
+
+(* the documented form ` // text` is an admissible decoration whatever the text *)
+Lemma documented_form_ok : forall text, sep_ok (" ", " " ++ text) = true.
+Proof. reflexivity. Qed.
+
+(* tidy, spelled out: the line already carries a comment, or it has no trailing whitespace *)
+Lemma tidy_spec : forall l,
+  tidy l = true <-> (snd (strip_inline_comment l) <> "" \/ rstrip l = l).
+Proof.
+  intros l. unfold tidy, bare_of. split.
+  - intros H. apply String.eqb_eq in H.
+    destruct (snd (strip_inline_comment l)) as [|a cm]; [right; exact H|left; discriminate].
+  - intros [H|H]; apply String.eqb_eq.
+    + destruct (snd (strip_inline_comment l)) as [|a cm]; [congruence|]. cbn [nonempty]. apply rstrip_idem.
+    + destruct (snd (strip_inline_comment l)) as [|a cm]; [exact H|]. cbn [nonempty]. apply rstrip_idem.
+Qed.
+
+(* =========================================================================================== *)
+(* Part B: `#` comment lines                                                                    *)
+(* =========================================================================================== *)
+
+Definition insert_at (k : nat) (c : string) (ls : list string) : list string :=
+  firstn k ls ++ c :: skipn k ls.
+
+(* `stripped.startswith("#")` *)
+Definition is_hash (c : string) : bool := startswith (strip c) "#".
+
+(* diagnostics up to the line index they carry (an inserted line shifts the indices after it) *)
+Definition erase_d (d : diag) : diag :=
+  match d with DSyntax s _ => DSyntax s 0 | DValue s => DValue s end.
+Definition erase {A} (m : pres A) : pres A :=
+  match m with PDiag d => PDiag (erase_d d) | other => other end.
+
+Lemma erase_ok_inv : forall A (m' : pres A) a, erase m' = erase (POk a) -> m' = POk a.
+Proof. intros A [b|d|k|] a H; simpl in H; congruence. Qed.
+
+Lemma erase_diag_inv : forall A (m' : pres A) d, erase m' = erase (PDiag d) ->
+  exists d', m' = PDiag d' /\ erase_d d' = erase_d d.
+Proof. intros A [b|d0|k|] d H; simpl in H; try discriminate. injection H as H. eauto. Qed.
+
+Lemma erase_internal_inv : forall A (m' : pres A) k, erase m' = erase (PInternal k) -> m' = PInternal k.
+Proof. intros A [b|d0|k0|] k H; simpl in H; congruence. Qed.
+
+Lemma erase_fuel_inv : forall A (m' : pres A), erase m' = erase (@POutOfFuel A) -> m' = POutOfFuel.
+Proof. intros A [b|d0|k0|] H; simpl in H; congruence. Qed.
+
+(* ---- the state up to the recorded line numbers ---- *)
+
+Definition set_locs (s : pstate) (l : list (string * list nat)) : pstate :=
+  mkPS (st_imports s) (st_metadata s) (st_passages s) l (st_current s) (st_explicit_start s)
+       (st_in_imports s) (st_in_metadata s).
+
+Definition loc_rel (a b : list (string * list nat)) : Prop :=
+  Forall2 (fun x y => fst x = fst y /\ List.length (snd x) = List.length (snd y)) a b.
+
+Lemma loc_rel_refl : forall a, loc_rel a a.
+Proof. induction a; constructor; auto. Qed.
+
+Lemma loc_rel_lookup : forall a b name, loc_rel a b ->
+  match lookup name a, lookup name b with
+  | Some x, Some y => List.length x = List.length y
+  | None, None => True
+  | _, _ => False
+  end.
+Proof.
+  intros a b name H. induction H as [|[k1 v1] [k2 v2] a b [Hk Hv] _ IH]; simpl; [exact I|].
+  simpl in Hk, Hv. subst k2. destruct (String.eqb name k1); [exact Hv|exact IH].
+Qed.
+
+Lemma loc_rel_set_key : forall a b name v w, loc_rel a b -> List.length v = List.length w ->
+  loc_rel (set_key name v a) (set_key name w b).
+Proof.
+  intros a b name v w H Hl. induction H as [|[k1 v1] [k2 v2] a b [Hk Hv] Hr IH]; simpl.
+  - constructor; [split; auto|constructor].
+  - simpl in Hk, Hv. subst k2. destruct (String.eqb name k1).
+    + constructor; [split; auto|exact Hr].
+    + constructor; [split; auto|exact IH].
+Qed.
+
+Lemma loc_rel_dups : forall a b, loc_rel a b -> check_duplicate_passages b = check_duplicate_passages a.
+Proof.
+  intros a b H. unfold check_duplicate_passages.
+  assert (E : existsb (fun kv : string * list nat => 1 <? List.length (snd kv)) b =
+              existsb (fun kv : string * list nat => 1 <? List.length (snd kv)) a).
+  { induction H as [|x y a b [_ Hv] _ IH]; simpl; [reflexivity|]. rewrite Hv, IH. reflexivity. }
+  rewrite E. reflexivity.
+Qed.
+
+Lemma new_passage_locs : forall s l2 name ps tags i i',
+  loc_rel (st_locations s) l2 ->
+  exists l3, new_passage (set_locs s l2) name ps tags i' = set_locs (new_passage s name ps tags i) l3 /\
+             loc_rel (st_locations (new_passage s name ps tags i)) l3.
+Proof.
+  intros s l2 name ps tags i i' H. unfold new_passage. cbn [st_locations set_locs].
+  pose proof (loc_rel_lookup _ _ name H) as Hl.
+  destruct (lookup name (st_locations s)) as [x|], (lookup name l2) as [y|]; try contradiction.
+  - eexists. split; [reflexivity|]. cbn [st_locations]. apply loc_rel_set_key; [exact H|simpl; lia].
+  - eexists. split; [reflexivity|]. cbn [st_locations]. apply loc_rel_set_key; [exact H|reflexivity].
+Qed.
+
+(* a choice line whose target is @join: the one place where the main loop calls x_join *)
+Definition join_site (line : string) : bool :=
+  (startswith line "+ " || startswith line "* ") &&
+  match parse_choice_line line with
+  | POk (Some (Choice _ target _ _ _ _ _ _)) => String.eqb target "@join"
+  | _ => false
+  end.
+
+(* validate_choice_syntax uses its index argument only inside diagnostics *)
+Lemma validate_choice_syntax_erase : forall line a b,
+  erase (validate_choice_syntax line b) = erase (validate_choice_syntax line a).
+Proof.
+  intros line a b. unfold validate_choice_syntax.
+  destruct (strip_inline_comment (strip line)) as [clean cm].
+  unfold index_char.
+  repeat (match goal with
+          | |- context [if ?c then _ else _] => destruct c
+          | |- context [match find_char ?x ?y with _ => _ end] => destruct (find_char x y)
+          | |- context [match match_brace ?x ?y ?z with _ => _ end] => destruct (match_brace x y z)
+          | |- context [match str_find ?x ?y with _ => _ end] => destruct (str_find x y)
+          | |- context [match split_ws ?x with _ => _ end] => destruct (split_ws x)
+          end; cbn [pbind]); reflexivity.
+Qed.
+
+(* ---- one iteration of the main loop, on two line lists at two indices ---- *)
+
+Section StepSim.
+Variable pp : pyparse.
+Variable xs : extractors.
+Variables L L' : list string.
+Variable d : nat.                       (* the index on L' is d + the index on L *)
+(* guard: which outcomes on L the comparison is asked for (all of them after the inserted line; the
+   successful ones that stay before it, before the inserted line) *)
+Variable P : nat -> Prop.
+Variable Q : Prop.
+
+Definition G (r : pres (pstate * nat)) : Prop :=
+  match r with POk (_, j) => P j | _ => Q end.
+
+Definition step_rel (r r' : pres (pstate * nat)) : Prop :=
+  match r with
+  | POk (s, j) => exists l2, r' = POk (set_locs s l2, d + j) /\ loc_rel (st_locations s) l2
+  | PDiag dd => exists dd', r' = PDiag dd' /\ erase_d dd' = erase_d dd
+  | PInternal k => r' = PInternal k
+  | POutOfFuel => r' = POutOfFuel
+  end.
+
+Definition SR (r r' : pres (pstate * nat)) : Prop := G r -> step_rel r r'.
+
+Lemma SR_ok : forall s j l2 j', loc_rel (st_locations s) l2 -> j' = d + j ->
+  SR (POk (s, j)) (POk (set_locs s l2, j')).
+Proof. intros s j l2 j' H E _. subst j'. exists l2. split; auto. Qed.
+
+Lemma SR_dsyn : forall site a b, SR (dsyn site a) (dsyn site b).
+Proof. intros site a b _. exists (DSyntax site b). split; reflexivity. Qed.
+
+Lemma SR_bind : forall A (m m' : pres A) f f',
+  erase m' = erase m -> (forall a, m = POk a -> SR (f a) (f' a)) -> SR (pbind m f) (pbind m' f').
+Proof.
+  intros A m m' f f' E H. destruct m as [a|dd|k|].
+  - apply erase_ok_inv in E. subst m'. simpl. apply H. reflexivity.
+  - apply erase_diag_inv in E. destruct E as [dd' [-> E]]. intros _. simpl. eauto.
+  - apply erase_internal_inv in E. subst m'. intros _. reflexivity.
+  - apply erase_fuel_inv in E. subst m'. intros _. reflexivity.
+Qed.
+
+Lemma erase_retag : forall A a b (m : pres A), erase (retag b m) = erase (retag a m).
+Proof. intros A a b [x|[s j|s]|k|]; reflexivity. Qed.
+
+Lemma retag_ok_eq : forall A i (m : pres A) a, retag i m = POk a -> m = POk a.
+Proof. intros A i [x|[s j|s]|k|] a H; simpl in H; congruence. Qed.
+
+Variable i : nat.
+Variable line : string.
+
+Definition Gx {A} (r : pres (A * nat)) : Prop :=
+  match r with POk (_, n) => P (i + n) | _ => Q end.
+Definition GxJ {A} (r : pres (A * nat)) : Prop :=
+  match r with POk (_, n) => P (S (i + n)) | _ => Q end.
+
+Hypothesis Hpy : py_test (strip line) = true ->
+  Gx (x_python xs L i) -> erase (x_python xs L' (d + i)) = erase (x_python xs L i).
+Hypothesis Hif : if_test (strip line) = true ->
+  Gx (x_conditional xs L i) -> erase (x_conditional xs L' (d + i)) = erase (x_conditional xs L i).
+Hypothesis Hfor : for_test (strip line) = true ->
+  Gx (x_loop xs L i) -> erase (x_loop xs L' (d + i)) = erase (x_loop xs L i).
+Hypothesis Hjoin : forall ind, join_site line = true ->
+  GxJ (x_join xs L (S i) ind) -> erase (x_join xs L' (S (d + i)) ind) = erase (x_join xs L (S i) ind).
+Hypothesis Heme : forall code,
+  P (i + snd (extract_multiline_expression L i code)) \/ Q ->
+  extract_multiline_expression L' (d + i) code = extract_multiline_expression L i code.
+
+Ltac sr_ok :=
+  match goal with
+  | Hl : loc_rel _ ?l |- _ =>
+      unfold SR, G, step_rel; cbn beta iota; intros _; exists l;
+      split; [apply f_equal; apply f_equal2; [reflexivity|lia]|exact Hl]
+  end.
+
+Lemma body_step_sim : forall st cp l2, loc_rel (st_locations st) l2 ->
+  SR (body_step pp xs L i line st cp) (body_step pp xs L' (d + i) line (set_locs st l2) cp).
+Proof.
+  intros st cp l2 Hl. unfold body_step.
+  destruct (startswith (strip line) "#"); [sr_ok|].
+  destruct (startswith (strip line) "<<py" || startswith (strip line) "@py") eqn:Epy.
+  { intros HG.
+    assert (Hg : Gx (x_python xs L i)) by (destruct (x_python xs L i) as [[c n]|?|?|]; exact HG).
+    specialize (Hpy Epy Hg). revert HG. apply SR_bind; [exact Hpy|]. intros [code n] _. sr_ok. }
+  destruct (startswith (strip line) "<<if " || startswith (strip line) "@if ") eqn:Eif.
+  { intros HG.
+    assert (Hg : Gx (x_conditional xs L i)) by (destruct (x_conditional xs L i) as [[c n]|?|?|]; exact HG).
+    specialize (Hif Eif Hg). revert HG. apply SR_bind; [exact Hif|]. intros [t n] _. sr_ok. }
+  destruct (startswith (strip line) "<<for " || startswith (strip line) "@for ") eqn:Efor.
+  { intros HG.
+    assert (Hg : Gx (x_loop xs L i)) by (destruct (x_loop xs L i) as [[c n]|?|?|]; exact HG).
+    specialize (Hfor Efor Hg). revert HG. apply SR_bind; [exact Hfor|]. intros [t n] _. sr_ok. }
+  destruct (startswith (strip line) "@render").
+  { apply SR_bind; [apply erase_retag|]. intros [t|] _; sr_ok. }
+  destruct (startswith (strip line) "@input").
+  { apply SR_bind; [apply erase_retag|]. intros [t|] _; sr_ok. }
+  destruct (startswith (strip line) "@hook ").
+  { destruct (split_ws (strip line)) as [|a [|b [|c [|? ?]]]]; try apply SR_dsyn. sr_ok. }
+  destruct (startswith (strip line) "@unhook ").
+  { destruct (split_ws (strip line)) as [|a [|b [|c [|? ?]]]]; try apply SR_dsyn. sr_ok. }
+  destruct (String.eqb (strip line) "@join"); [sr_ok|].
+  destruct (startswith (strip line) "->").
+  { destruct (arrow_rest _); [destruct (extract_target_and_args _)|]; sr_ok. }
+  destruct (startswith line "~ ").
+  { destruct (strip_inline_comment _) as [code cm].
+    destruct (extract_multiline_expression L i code) as [cc n] eqn:Ee.
+    intros HG.
+    assert (He : extract_multiline_expression L' (d + i) code = (cc, n)).
+    { rewrite <- Ee. apply Heme. rewrite Ee. simpl.
+      destruct (py_stmt_ok pp cc); [left|right]; exact HG. }
+    rewrite He. revert HG. destruct (py_stmt_ok pp cc); [sr_ok|apply SR_dsyn]. }
+  destruct (startswith line "+ " || startswith line "* ") eqn:Ech.
+  { apply SR_bind; [apply validate_choice_syntax_erase|]. intros _ _.
+    apply SR_bind; [apply erase_retag|].
+    intros [[text target args cond sticky sec tags blk]|] Hoc; [|apply SR_dsyn].
+    destruct (String.eqb target "@join") eqn:Et; [|sr_ok].
+    assert (Hs : join_site line = true).
+    { unfold join_site. rewrite Ech. apply retag_ok_eq in Hoc. rewrite Hoc, Et. reflexivity. }
+    intros HG.
+    assert (Hg : GxJ (x_join xs L (S i) (indent_of line))).
+    { destruct (x_join xs L (S i) (indent_of line)) as [[[bc be] n]|?|?|]; exact HG. }
+    specialize (Hjoin (indent_of line) Hs Hg). revert HG. apply SR_bind; [exact Hjoin|].
+    intros [[bc be] n] _. sr_ok. }
+  destruct (nonempty (strip line)); [|sr_ok].
+  destruct (endswith (rstrip line) "<>").
+  - apply SR_bind; [apply erase_retag|]. intros ts _. sr_ok.
+  - apply SR_bind; [apply erase_retag|]. intros ts _. sr_ok.
+Qed.
+
+(* the part of parse_step after the imports section and the @metadata block *)
+Definition step_tail2 (lines : list string) (j : nat) (st : pstate) : pres (pstate * nat) :=
+  let stripped := strip line in
+  if startswith stripped "@start " then POk (set_start st (strip (drop 7 stripped)), S j) else
+  if startswith line ":: " then
+    let (passage_header, _) := strip_inline_comment (strip (drop 3 line)) in
+    let (name_with_params, params_str) := extract_passage_params passage_header in
+    let (passage_name, passage_tags) := parse_tags name_with_params in
+    let* _ := validate_passage_name passage_name j in
+    let* ps := (if nonempty params_str then retag j (parse_passage_params params_str) else POk []) in
+    POk (new_passage st passage_name ps passage_tags j, S j)
+  else
+  match st_current st with
+  | None => POk (st, S j)
+  | Some cp => body_step pp xs lines j line st cp
+  end.
+
+Definition step_tail1 (lines : list string) (j : nat) (st1 : pstate) : pres (pstate * nat) :=
+  let stripped := strip line in
+  if String.eqb stripped "@metadata" then POk (set_in_metadata st1 true, S j) else
+  let phase2 : pstate + (pstate * nat) :=
+    if st_in_metadata st1 then
+      if negb (nonempty stripped) then inr (st1, S j)
+      else if startswith line " " || startswith line (String (ascii_of_nat 9) EmptyString) then
+        match find_char stripped ":" with
+        | Some k =>
+            inr (set_metadata st1 (set_key (strip (take k stripped)) (strip (drop (S k) stripped))
+                                           (st_metadata st1)), S j)
+        | None => inl (set_in_metadata st1 false)
+        end
+      else inl (set_in_metadata st1 false)
+    else inl st1 in
+  match phase2 with
+  | inr r => POk r
+  | inl st => step_tail2 lines j st
+  end.
+
+Lemma parse_step_unfold : forall lines j st0,
+  parse_step pp xs lines j line st0 =
+  let stripped := strip line in
+  if st_in_imports st0 then
+    if negb (nonempty stripped) || startswith stripped "#" then POk (st0, S j)
+    else if startswith stripped "import " || startswith stripped "from "
+    then POk (set_imports st0 (line :: st_imports st0), S j)
+    else step_tail1 lines j (set_in_imports st0 false)
+  else step_tail1 lines j st0.
+Proof.
+  intros lines j st0. unfold parse_step, step_tail1, step_tail2. cbv zeta.
+  destruct (st_in_imports st0); [|reflexivity].
+  destruct (negb (nonempty (strip line)) || startswith (strip line) "#"); [reflexivity|].
+  destruct (startswith (strip line) "import " || startswith (strip line) "from "); reflexivity.
+Qed.
+
+Lemma validate_passage_name_erase : forall name a b,
+  erase (validate_passage_name name b) = erase (validate_passage_name name a).
+Proof.
+  intros name a b. unfold validate_passage_name.
+  repeat (match goal with
+          | |- context [if ?c then _ else _] => destruct c
+          | |- context [match ?x with EmptyString => _ | String _ _ => _ end] => destruct x
+          end; cbn [pbind]); reflexivity.
+Qed.
+
+Lemma step_tail2_sim : forall st l2, loc_rel (st_locations st) l2 ->
+  SR (step_tail2 L i st) (step_tail2 L' (d + i) (set_locs st l2)).
+Proof.
+  intros st l2 Hl. unfold step_tail2. cbv zeta.
+  destruct (startswith (strip line) "@start "); [sr_ok|].
+  destruct (startswith line ":: ").
+  { destruct (strip_inline_comment _) as [hdr cm]. destruct (extract_passage_params hdr) as [nwp ps0].
+    destruct (parse_tags nwp) as [name tags].
+    apply SR_bind; [apply validate_passage_name_erase|]. intros _ _.
+    apply SR_bind; [destruct (nonempty ps0); [apply erase_retag|reflexivity]|]. intros ps _.
+    destruct (new_passage_locs st l2 name ps tags i (d + i) Hl) as [l3 [E3 H3]].
+    rewrite E3. intros _. exists l3. split; [apply f_equal; apply f_equal2; [reflexivity|lia]|exact H3]. }
+  cbn [st_current set_locs].
+  destruct (st_current st) as [cp|]; [apply body_step_sim; exact Hl|sr_ok].
+Qed.
+
+Lemma step_tail1_sim : forall st l2, loc_rel (st_locations st) l2 ->
+  SR (step_tail1 L i st) (step_tail1 L' (d + i) (set_locs st l2)).
+Proof.
+  intros st l2 Hl. unfold step_tail1. cbv zeta.
+  destruct (String.eqb (strip line) "@metadata"); [sr_ok|].
+  cbn [st_in_metadata set_locs].
+  destruct (st_in_metadata st).
+  - destruct (negb (nonempty (strip line))); [sr_ok|].
+    destruct (startswith line " " || startswith line (String (ascii_of_nat 9) "")).
+    + destruct (find_char (strip line) ":"); [sr_ok|].
+      apply (step_tail2_sim (set_in_metadata st false) l2 Hl).
+    + apply (step_tail2_sim (set_in_metadata st false) l2 Hl).
+  - apply (step_tail2_sim st l2 Hl).
+Qed.
+
+Lemma parse_step_sim : forall st l2, loc_rel (st_locations st) l2 ->
+  SR (parse_step pp xs L i line st) (parse_step pp xs L' (d + i) line (set_locs st l2)).
+Proof.
+  intros st l2 Hl. rewrite !parse_step_unfold. cbv zeta.
+  cbn [st_in_imports set_locs].
+  destruct (st_in_imports st).
+  - destruct (negb (nonempty (strip line)) || startswith (strip line) "#"); [sr_ok|].
+    destruct (startswith (strip line) "import " || startswith (strip line) "from "); [sr_ok|].
+    apply (step_tail1_sim (set_in_imports st false) l2 Hl).
+  - apply (step_tail1_sim st l2 Hl).
+Qed.
+
+(*STEPSIM*)
+End StepSim.
+
+(* ---- comment lines ---- *)
+
+Lemma rstrip_cons_nonspace : forall c r, is_space c = false -> rstrip (String c r) = String c (rstrip r).
+Proof. intros c r H. rewrite rstrip_cons. destruct (rstrip r); rewrite ?H; reflexivity. Qed.
+
+Lemma startswith_hash_other : forall s x p, startswith s "#" = true -> ascii_eqb "#"%char x = false ->
+  startswith s (String x p) = false.
+Proof.
+  intros [|a r] x p H Hx; simpl in H |- *; [reflexivity|].
+  apply andb_prop in H. destruct H as [H _]. unfold ascii_eqb in H. apply Ascii.eqb_eq in H. subst a.
+  rewrite Hx. reflexivity.
+Qed.
+
+Lemma hash_not_eq : forall s t x p, startswith s "#" = true -> ascii_eqb "#"%char x = false ->
+  t = String x p -> String.eqb s t = false.
+Proof.
+  intros [|a r] t x p H Hx ->; simpl in H; [discriminate|].
+  apply andb_prop in H. destruct H as [H _]. unfold ascii_eqb in H. apply Ascii.eqb_eq in H. subst a.
+  unfold ascii_eqb in Hx.
+  change (String.eqb (String "#" r) (String x p)) with (if Ascii.eqb "#" x then String.eqb r p else false).
+  rewrite Hx. reflexivity.
+Qed.
+
+Lemma is_hash_not_header : forall c, is_hash c = true -> startswith c ":: " = false.
+Proof.
+  intros [|a r] H; [reflexivity|]. simpl. destruct (ascii_eqb a ":") eqn:E; [|reflexivity].
+  unfold ascii_eqb in E. apply Ascii.eqb_eq in E. subst a.
+  unfold is_hash, strip in H. cbn [lstrip] in H. change (is_space ":") with false in H. cbv iota in H.
+  rewrite rstrip_cons_nonspace in H by reflexivity. simpl in H. discriminate.
+Qed.
+
+Lemma lstrip_split : forall s, exists w, all_space w = true /\ s = w ++ lstrip s.
+Proof.
+  induction s as [|a r [w [Hw E]]].
+  - exists "". split; reflexivity.
+  - cbn [lstrip]. destruct (is_space a) eqn:Ea.
+    + exists (String a w). split; [simpl; rewrite Ea; exact Hw|]. simpl. rewrite <- E. reflexivity.
+    + exists "". split; reflexivity.
+Qed.
+
+Lemma lstrip_head : forall s a r, lstrip s = String a r -> is_space a = false.
+Proof.
+  induction s as [|b t IH]; intros a r H; [discriminate|].
+  cbn [lstrip] in H. destruct (is_space b) eqn:Eb; [eapply IH; exact H|]. injection H as <- _. exact Eb.
+Qed.
+
+Lemma lstrip_app_ws : forall w s, all_space w = true -> lstrip (w ++ s) = lstrip s.
+Proof.
+  induction w as [|a w IH]; intros s H; [reflexivity|].
+  simpl in H. apply andb_prop in H. destruct H as [Ha Hw]. simpl. rewrite Ha. apply IH. exact Hw.
+Qed.
+
+Lemma is_hash_shape : forall c, is_hash c = true ->
+  exists w r, all_space w = true /\ c = w ++ String "#" r.
+Proof.
+  intros c H. destruct (lstrip_split c) as [w [Hw E]]. unfold is_hash, strip in H.
+  destruct (lstrip c) as [|a r] eqn:El; [discriminate|].
+  pose proof (lstrip_head c a r El) as Ha. rewrite rstrip_cons_nonspace in H by exact Ha.
+  simpl in H. apply andb_prop in H. destruct H as [H _]. unfold ascii_eqb in H. apply Ascii.eqb_eq in H.
+  subst a. exists w, r. split; assumption.
+Qed.
+
+Lemma shape_is_hash : forall w r, all_space w = true -> is_hash (w ++ String "#" r) = true.
+Proof.
+  intros w r H. unfold is_hash, strip. rewrite (lstrip_app_ws w _ H). cbn [lstrip].
+  change (is_space "#") with false. cbv iota. rewrite rstrip_cons_nonspace by reflexivity.
+  simpl. destruct (rstrip r); reflexivity.
+Qed.
+
+Lemma sic_all_space : forall w, all_space w = true -> strip_inline_comment w = (w, "").
+Proof.
+  induction w as [|a w IH]; intros H; [reflexivity|].
+  simpl in H. apply andb_prop in H. destruct H as [Ha Hw].
+  rewrite sic_regular_head by (left; apply space_not_slash; exact Ha). rewrite (IH Hw). reflexivity.
+Qed.
+
+Lemma length_sic_snd_le : forall n s, String.length s <= n ->
+  String.length (snd (strip_inline_comment s)) <= String.length s.
+Proof.
+  induction n as [|n IH]; intros s Hn.
+  - destruct s; simpl in *; lia.
+  - destruct s as [|a [|b [|c r]]].
+    + simpl. lia.
+    + rewrite sic_1. simpl. lia.
+    + rewrite sic_2. destruct (is_slash a && is_slash b); simpl; lia.
+    + rewrite sic_3. simpl in Hn.
+      pose proof (IH r ltac:(lia)) as H1.
+      pose proof (IH (String b (String c r)) ltac:(simpl; lia)) as H2.
+      destruct (is_bslash a && is_slash b && is_slash c); [simpl in *; lia|].
+      destruct (is_slash a && is_slash b && is_equals c); [simpl in *; lia|].
+      destruct (is_slash a && is_slash b); simpl in *; lia.
+Qed.
+
+Lemma take_app_ge : forall a b n, take (String.length a + n) (a ++ b) = a ++ take n b.
+Proof. induction a as [|x a IH]; intros b n; simpl; [reflexivity|now rewrite IH]. Qed.
+
+(* what the pre-pass leaves of a comment line is a comment line *)
+Lemma is_hash_bare : forall c, is_hash c = true -> is_hash (bare_of c) = true.
+Proof.
+  intros c H. destruct (is_hash_shape c H) as [w [r [Hw ->]]].
+  unfold bare_of.
+  assert (Es : strip_inline_comment (w ++ String "#" r) =
+               (w ++ String "#" (fst (strip_inline_comment r)), snd (strip_inline_comment r))).
+  { rewrite sic_app.
+    - rewrite (sic_all_space w Hw), sic_regular_head by (left; reflexivity). reflexivity.
+    - unfold no_comment. rewrite (sic_all_space w Hw). reflexivity.
+    - unfold boundary_ok. simpl. apply orb_true_r. }
+  rewrite Es. cbn [snd].
+  destruct (snd (strip_inline_comment r)) as [|x cm] eqn:Ec; cbn [nonempty]; [apply shape_is_hash; exact Hw|].
+  pose proof (length_sic_snd_le (String.length r) r (Nat.le_refl _)) as Hlen. rewrite Ec in Hlen.
+  replace (String.length (w ++ String "#" r) - String.length (String x cm))
+    with (String.length w + S (String.length r - String.length (String x cm))).
+  2:{ rewrite length_append. simpl in *. lia. }
+  rewrite take_app_ge. cbn [take].
+  unfold is_hash. rewrite strip_rstrip. apply shape_is_hash. exact Hw.
+Qed.
+
+(* ---- lists with an inserted element ---- *)
+
+Lemma insert_at_0 : forall c (ls : list string), insert_at 0 c ls = c :: ls.
+Proof. reflexivity. Qed.
+
+Lemma insert_at_S : forall k c l (r : list string), insert_at (S k) c (l :: r) = l :: insert_at k c r.
+Proof. reflexivity. Qed.
+
+Lemma insert_at_length : forall k c (ls : list string), List.length (insert_at k c ls) = S (List.length ls).
+Proof.
+  intros k c ls. unfold insert_at. rewrite app_length. simpl.
+  rewrite <- (firstn_skipn k ls) at 3. rewrite app_length. lia.
+Qed.
+
+Lemma nth_error_insert_lt : forall k c (ls : list string) i, i < k -> k <= List.length ls ->
+  nth_error (insert_at k c ls) i = nth_error ls i.
+Proof.
+  induction k as [|k IH]; intros c ls i Hi Hk; [lia|].
+  destruct ls as [|l r]; simpl in Hk; [lia|]. rewrite insert_at_S.
+  destruct i as [|i]; [reflexivity|]. simpl. apply IH; lia.
+Qed.
+
+Lemma nth_error_insert_eq : forall k c (ls : list string), k <= List.length ls ->
+  nth_error (insert_at k c ls) k = Some c.
+Proof.
+  induction k as [|k IH]; intros c ls Hk; [reflexivity|].
+  destruct ls as [|l r]; simpl in Hk; [lia|]. rewrite insert_at_S. simpl. apply IH. lia.
+Qed.
+
+Lemma nth_error_insert_ge : forall k c (ls : list string) i, k <= i -> k <= List.length ls ->
+  nth_error (insert_at k c ls) (S i) = nth_error ls i.
+Proof.
+  induction k as [|k IH]; intros c ls i Hi Hk; [reflexivity|].
+  destruct ls as [|l r]; simpl in Hk; [lia|]. rewrite insert_at_S.
+  destruct i as [|i]; [lia|]. simpl. apply IH; lia.
+Qed.
+
+Lemma skipn_insert_le : forall j k c (ls : list string), j <= k -> k <= List.length ls ->
+  skipn j (insert_at k c ls) = insert_at (k - j) c (skipn j ls).
+Proof.
+  induction j as [|j IH]; intros k c ls Hj Hk.
+  - rewrite Nat.sub_0_r. reflexivity.
+  - destruct k as [|k]; [lia|]. destruct ls as [|l r]; simpl in Hk; [lia|].
+    rewrite insert_at_S. simpl. apply IH; lia.
+Qed.
+
+Lemma skipn_insert_gt : forall k c (ls : list string) j, k <= j -> k <= List.length ls ->
+  skipn (S j) (insert_at k c ls) = skipn j ls.
+Proof.
+  induction k as [|k IH]; intros c ls j Hj Hk; [reflexivity|].
+  destruct ls as [|l r]; simpl in Hk; [lia|]. rewrite insert_at_S.
+  destruct j as [|j]; [lia|]. simpl. apply IH; lia.
+Qed.
+
+(* ---- extract_multiline_expression and an inserted line ---- *)
+
+Lemma eme_loop_insert : forall c r m stack acc n0,
+  eme_count r stack <= m -> m < List.length r ->
+  eme_loop (insert_at m c r) stack acc n0 = eme_loop r stack acc n0.
+Proof.
+  induction r as [|l r IH]; intros m stack acc n0 Hc Hm; [simpl in Hm; lia|].
+  destruct stack as [|t st].
+  - destruct m; reflexivity.
+  - destruct m as [|m].
+    + simpl in Hc. destruct (scan_brackets l (t :: st)); lia.
+    + rewrite insert_at_S. cbn [eme_loop eme_count] in *.
+      destruct (scan_brackets l (t :: st)) as [|t' st'] eqn:E; [reflexivity|].
+      apply IH; simpl in Hm; lia.
+Qed.
+
+Lemma eme_count_insert : forall c r m stack,
+  eme_count r stack <= m -> m < List.length r ->
+  eme_count (insert_at m c r) stack = eme_count r stack.
+Proof.
+  intros c r m stack Hc Hm.
+  pose proof (eme_loop_count (insert_at m c r) stack [] 0) as H1.
+  pose proof (eme_loop_count r stack [] 0) as H2.
+  rewrite (eme_loop_insert c r m stack [] 0 Hc Hm) in H1. simpl in *. congruence.
+Qed.
+
+Lemma eme_insert_before : forall c L k i code,
+  i + snd (extract_multiline_expression L i code) <= k -> k < List.length L ->
+  extract_multiline_expression (insert_at k c L) i code = extract_multiline_expression L i code.
+Proof.
+  intros c L k i code H Hk. unfold extract_multiline_expression in *.
+  destruct (negb _); [reflexivity|].
+  pose proof (eme_loop_count (skipn (S i) L) (initial_stack (strip code) []) [code] 0) as Hc.
+  destruct (eme_loop (skipn (S i) L) (initial_stack (strip code) []) [code] 0) as [acc n] eqn:E.
+  cbn [snd] in H, Hc. rewrite Nat.add_0_l in Hc.
+  rewrite skipn_insert_le by lia.
+  rewrite eme_loop_insert; [rewrite E; reflexivity|lia|rewrite skipn_length; lia].
+Qed.
+
+Lemma eme_insert_after : forall c L k i code, k <= i -> k <= List.length L ->
+  extract_multiline_expression (insert_at k c L) (S i) code = extract_multiline_expression L i code.
+Proof.
+  intros c L k i code H Hk. unfold extract_multiline_expression.
+  rewrite (skipn_insert_gt k c L (S i)) by lia. reflexivity.
+Qed.
+
+(* ---- the pre-pass and an inserted comment line ---- *)
+
+(* what the pre-pass emits for a line, and its state after the line *)
+Definition pre_emit (l : string) (closer : option string) (in_story : bool) : string :=
+  let bare := bare_of l in
+  let stripped := strip bare in
+  match closer with
+  | Some c => if String.eqb stripped c then bare else l
+  | None => if in_story || startswith l ":: " || startswith stripped "@start " then bare else l
+  end.
+
+Definition pre_next (l : string) (r : list string) (closer : option string) (in_story : bool)
+  : option string * bool * nat :=
+  let bare := bare_of l in
+  let stripped := strip bare in
+  match closer with
+  | Some c => if String.eqb stripped c then (None, in_story, 0) else (closer, in_story, 0)
+  | None =>
+      if in_story || startswith l ":: " || startswith stripped "@start " then
+        let in_story' := in_story || startswith l ":: " in
+        if startswith stripped "@py" then (Some "@endpy", in_story', 0)
+        else if startswith stripped "<<py" then (Some ">>", in_story', 0)
+        else if startswith stripped "~ " then (None, in_story', eme_skip r (drop 2 stripped))
+        else (None, in_story', 0)
+      else (None, in_story, 0)
+  end.
+
+Lemma spcop_step : forall l r closer in_story,
+  spcop (l :: r) closer in_story 0 =
+  pre_emit l closer in_story ::
+  spcop r (fst (fst (pre_next l r closer in_story))) (snd (fst (pre_next l r closer in_story)))
+        (snd (pre_next l r closer in_story)).
+Proof.
+  intros l r closer in_story. rewrite spcop_0. unfold pre_emit, pre_next. cbv zeta.
+  destruct closer as [c0|].
+  - destruct (String.eqb (strip (bare_of l)) c0); reflexivity.
+  - repeat match goal with |- context [if ?b then _ else _] => destruct b end; reflexivity.
+Qed.
+
+Lemma spcop_length : forall ls closer in_story skip,
+  List.length (spcop ls closer in_story skip) = List.length ls.
+Proof.
+  induction ls as [|l r IH]; intros closer in_story skip; [reflexivity|].
+  destruct skip as [|k]; [rewrite spcop_step|]; simpl; rewrite IH; reflexivity.
+Qed.
+
+(* the pre-pass state in front of line k (None: the input has fewer than k lines) *)
+Fixpoint prepass_at (rest : list string) (closer : option string) (in_story : bool) (skip k : nat)
+  : option (option string * bool * nat) :=
+  match k with
+  | 0 => Some (closer, in_story, skip)
+  | S k' =>
+      match rest with
+      | [] => None
+      | l :: r =>
+          match skip with
+          | S s => prepass_at r closer in_story s k'
+          | 0 => prepass_at r (fst (fst (pre_next l r closer in_story)))
+                            (snd (fst (pre_next l r closer in_story)))
+                            (snd (pre_next l r closer in_story)) k'
+          end
+      end
+  end.
+
+Lemma prepass_at_skip_le : forall k r cl ins sk cl2 ins2,
+  prepass_at r cl ins sk k = Some (cl2, ins2, 0) -> sk <= k.
+Proof.
+  induction k as [|k IH]; intros r cl ins sk cl2 ins2 H.
+  - simpl in H. injection H as _ _ ->. lia.
+  - destruct r as [|l r]; [discriminate|]. destruct sk as [|s]; [lia|].
+    simpl in H. apply IH in H. lia.
+Qed.
+
+Lemma pre_next_insert : forall l r m c cl ins,
+  snd (pre_next l r cl ins) <= m -> m < List.length r ->
+  pre_next l (insert_at m c r) cl ins = pre_next l r cl ins.
+Proof.
+  intros l r m c cl ins H Hm. unfold pre_next in *. cbv zeta in *.
+  destruct cl as [c0|]; [reflexivity|].
+  repeat match goal with |- context [if ?b then _ else _] => destruct b end; try reflexivity.
+  cbn [snd] in H. f_equal. unfold eme_skip in *. destruct (negb _); [reflexivity|].
+  apply eme_count_insert; assumption.
+Qed.
+
+Lemma prepass_insert_gen : forall k ls cl ins sk ins2 c,
+  prepass_at ls cl ins sk k = Some (None, ins2, 0) -> k < List.length ls -> is_hash c = true ->
+  spcop (insert_at k c ls) cl ins sk = insert_at k (if ins2 then bare_of c else c) (spcop ls cl ins sk).
+Proof.
+  induction k as [|k IH]; intros ls cl ins sk ins2 c H Hk Hc.
+  - simpl in H. injection H as -> -> ->. rewrite !insert_at_0, spcop_0. cbv zeta.
+    pose proof (is_hash_bare c Hc) as Hb. unfold is_hash in Hb.
+    rewrite (is_hash_not_header c Hc).
+    rewrite (startswith_hash_other _ "@" "start " Hb) by reflexivity.
+    rewrite !orb_false_r.
+    destruct ins2; [|reflexivity].
+    rewrite (startswith_hash_other _ "@" "py" Hb) by reflexivity.
+    rewrite (startswith_hash_other _ "<" "<py" Hb) by reflexivity.
+    rewrite (startswith_hash_other _ "~" " " Hb) by reflexivity.
+    reflexivity.
+  - destruct ls as [|l r]; [simpl in Hk; lia|]. simpl in Hk. rewrite insert_at_S.
+    destruct sk as [|s].
+    + cbn [prepass_at] in H. rewrite !spcop_step.
+      pose proof (prepass_at_skip_le _ _ _ _ _ _ _ H) as Hs.
+      rewrite (pre_next_insert l r k c cl ins Hs) by lia.
+      rewrite insert_at_S. f_equal. apply IH; [exact H|lia|exact Hc].
+    + cbn [prepass_at] in H. cbn [strip_comments_outside_python]. rewrite insert_at_S. f_equal.
+      apply IH; [exact H|lia|exact Hc].
 Qed.
